@@ -7,7 +7,7 @@ HOOKS = {
     "add_only": True,
 }
 ENGINES = [
-    {"name": "grid", "path": "/verif/mc/props", "serves_properties": ["C04", "C05", "C06", "C07"],
+    {"name": "grid", "path": "/verif/mc/props", "serves_properties": ["C02", "C04", "C05", "C06", "C07"],
      "kind_free_text": "complete Cartesian products of finite input alphabets executed on the real code and compared with an explicit oracle or metamorphic relation"},
     {"name": "fault", "path": "/verif/mc/props/C08.py", "serves_properties": ["C08"],
      "kind_free_text": "fault-point enumerator: public-API fault menu x position and sys.settrace call-level injection, snapshot oracle"},
@@ -113,5 +113,15 @@ CHECKS["C07"] = dict(
          "(source/sensor/collection methods, multi-argument forms, sumup, squeeze, dataframe order) for all 13 registered classes incl. "
          "Loop/Line aliases and CustomSource x 4 fields x path length {1,3}; all 9 exported core functions vs the object interface.",
     note="rel. tolerance 1e-10; the reference is the library's own single-object, single-observer evaluation.")
+CHECKS["C02"] = dict(
+    engine="grid", level="exploration", design_ref="DESIGN.md §4 C02",
+    technique="bounded-exhaustive enumeration of special-set observer cells (incl. exact faces, edges, corners, rim, cut planes and their nextafter neighbours) x class x regime x pose x in_out, checked with oracle-free consistency relations and an exact inside predicate",
+    text="For 10 classes x 1-5 geometry regimes x 3 polarizations x 3 poses (x in_out auto/inside/outside for Tetrahedron and "
+         "TriangularMesh) all four fields are evaluated on the complete lattice of special-set cells (~650k field rows) and must satisfy "
+         "B - mu0 H - J = 0 (1e-12), J = mu_0 M with the exported constant (1e-15), J = R*polarization strictly inside / 0 strictly "
+         "outside by an exact local-frame predicate, J = M = 0 for currents, dipoles, triangle sheets; the polarization/magnetization "
+         "attributes are checked through 6 assignment forms x 5 values x 7 classes.",
+    note="On the surface band (1e-9 relative) only the consistency relations are demanded, not a particular inside decision. Rows with "
+         "non-finite outputs are left to C15. TriangularMesh/Tetrahedron inside predicate assumes convex test bodies.")
 _todo = "check not built yet in this session (planned, see DESIGN.md §4); nothing is claimed for it"
 NOT_APPLICABLE = [{"property_id": f"C{i:02d}", "reason": _todo} for i in range(1, 21) if f"C{i:02d}" not in CHECKS]
